@@ -39,7 +39,10 @@
     NOT needed for the equality (and therefore not assumed): the certificate H_b U_b = U_b diag(E_b), U_b^+ U_b = 1.  It is what
     makes (assembled E, assembled U) an eigen-decomposition of the full Hamiltonian: Properties_C03
     (hpart_prepare_is_restriction, blocks_diagonalise_full_partial, blocks_unitary_partial).
-    NOT covered: the route through FieldOperatorContainer (c_i stored as the adjoint of c^+_i: C10 container_copy_is_adjoint). *)
+    NOT covered: the route through FieldOperatorContainer (c_i stored as the adjoint of c^+_i: C10 container_copy_is_adjoint).
+    UPDATE (Stage 2b / Stage 3, appended at the end of this file): [partition_ok] and [op_ok] are now DISCHARGED from
+    C07_partition_exact / C07_single_target for the classification produced by the Symm model ([spine_gf_symmetry_partition]); the
+    Hamiltonian layer is connected ([spine_gf_of_hamiltonian]); the ensemble average has its own spine ([spine_ea_partition]). *)
 Require Import Bool List Arith ZArith Ring_theory Field_theory.
 From PV Require Import Outcome Fock Poly PolySem EDSpec HPart HPartSpec HPartProofs Sparse TermList GFPart GFPartProofs
      Spine SpineSparseProofs SpinePartition SpineOneBlock SpineExamples.
